@@ -101,3 +101,24 @@ Print Assumptions C14_destructive_displaces_at_most_one.
 Print Assumptions C14_failed_insert_keeps_invariant.
 Print Assumptions C14_redis_insert_outcomes.
 Print Assumptions C14_redis_nondestructive_changes_nothing.
+
+(* Redis, destructive half (and C02's "an Insert that returns has stored the element"): over the
+   multiset of all non-empty entries of all bucket lists, an Insert that returns adds exactly the new
+   fingerprint; one that fails with the destructive option exchanges at most one entry -- exactly one
+   fingerprint (possibly the inserted one) left the table. Every hash, configuration, consistent
+   store and random choices. *)
+From GX.Proofs Require RedisCuckooConserve.
+Theorem C14_redis_destructive_displaces_at_most_one : forall key meta size bsize fpl retries,
+  (forall i, meta <> bucket_key key i) -> (forall i, meta <> len_key (bucket_key key i)) ->
+  1 <= bsize -> bsize < 2 ^ 62 -> 0 < size ->
+  forall h64 s c x coin draws fp i1 i2,
+  buckets_ok key size bsize s -> mlen meta s = Some c ->
+  rck_positions h64 (hdl key meta size bsize fpl retries) x = Ok (fp, i1, i2) -> fp <> [] -> i1 < size -> i2 < size ->
+  Forall (fun k => k < 2 ^ 53) draws ->
+  match rck_insert h64 s (hdl key meta size bsize fpl retries) x true coin draws with
+  | RInsOk s' => Permutation.Permutation (RedisCuckooConserve.rall key size s') (fp :: RedisCuckooConserve.rall key size s)
+  | RInsFull s' => exists lost, Permutation.Permutation (lost :: RedisCuckooConserve.rall key size s') (fp :: RedisCuckooConserve.rall key size s)
+  | RInsPanic _ _ => True
+  end.
+Proof. exact RedisCuckooConserve.rinsert_conserves. Qed.
+Print Assumptions C14_redis_destructive_displaces_at_most_one.
